@@ -150,6 +150,15 @@ def plan_for_source(kind, src, tier, rnd, idx):
     for _ in range(min(nclass, len(ckeys))):
         cl = classes[rnd.choice(ckeys)]
         cases.append(Case(cid(), kind, src, 0, NOFILT, "", [rnd.choice(cl)], cls="fault-class"))
+    # the few files outside sys/devices/system (proc/cpuinfo, proc/mounts, proc/self/cpuset, proc/self/cgroup, cgroup mount
+    # files, ...) select whole code paths (cgroup name lookup, allowed-resources source): every proc/ file is removed singly
+    # in both tiers, cgroup mount files two per snapshot (quick) or up to 40 (thorough)
+    procrem = [p_ for p_ in rem if p_.startswith("proc/") and os.path.isfile(os.path.join(src, p_))]
+    cgrem = [p_ for p_ in rem if not p_.startswith("proc/") and ("/cgroup" in p_ or "/cpuset" in p_)]
+    if kind == "L":
+        picks = procrem[:24] + (rnd.sample(cgrem, min(2, len(cgrem))) if tier == "quick" else cgrem[:40])
+        for p_ in picks:
+            cases.append(Case(cid(), kind, src, rnd.choice([0, 0, 1]), NOFILT, "", [p_], cls="fault-proc"))
     if tier == "thorough" and kind != "X" and len(rem) <= 800 and sysrem:
         # small snapshots: every single removal under sys/devices/system, and pairs (all when few, else sampled)
         for p in sysrem:
